@@ -11,37 +11,72 @@
 From Coq Require Import ZArith QArith List Bool.
 From Knut Require Import Model.Str Model.Dec Model.Date Model.Account Model.Ledger Model.Journal
      Model.Cli Model.Perf Model.Weights Model.CliPortfolio Spec.PortfolioSpec
-     Spec.PortfolioMapSpec
+     Spec.PortfolioMapSpec Spec.WellformedSpec
      Proofs.PortfolioDays Proofs.PortfolioReturns Proofs.PortfolioWeights Proofs.PortfolioWitness
      Proofs.PortfolioProofs Proofs.PortfolioTree Proofs.PortfolioMapping Proofs.PortfolioMapWitness
-     Proofs.PortfolioTable Proofs.PortfolioTableLaw.
+     Proofs.PortfolioTable Proofs.PortfolioTableLaw
+     Proofs.PortfolioValuesFull Proofs.PortfolioFlowsFull Proofs.PortfolioQuietDays Proofs.PortfolioFullWitness.
 Import ListNotations.
 Open Scope Q_scope.
 
 (* ---------------------------------------------------------------- weights *)
 
-(* The value per commodity that `portfolio weights` uses for a day: for every list of (valued)
-   days and every day d in it, the record ComputeValues emits for d carries as V1 the decimals
-   accumulated (Amounts.Add, entries that become zero are deleted) over the bookings
-     - of ALL days up to and including d, i.e. from the journal's first day: a later --from
-       does not cut this window (unlike `balance`, whose Filter stage drops earlier days),
-     - on asset/liability accounts passing the account filter,
-     - in commodities passing the commodity filter,
-   with the values the valuate_proc stage wrote (the days are those produced by
-   CliPortfolio.valued_days, the same stage `balance -v` books from).
+(* The value per commodity that `portfolio weights` uses for a day IS the valued balance of the
+   portfolio accounts: for every list of (valued) days with strictly ascending dates (those
+   the commands build, C20_command_days_ascending) and every day d in it, the record
+   ComputeValues emits for d carries as V1 a map whose entry for commodity c equals
+     [portfolio_value]: the sum of the values (written by the valuate_proc stage, the same
+       stage `balance -v` books from) of the bookings
+       - of ALL days up to and including d, i.e. from the journal's first day: a later --from
+         does not cut this window (unlike `balance`, whose Filter stage drops earlier days),
+       - on asset/liability accounts passing the account filter,
+       - in c, if c passes the commodity filter (0 otherwise);
+     [portfolio_value_by_account]: the same taken account by account -- the sum over the A/L
+       accounts passing the filter of their valued positions (the cells of `balance -v`) -- for
+       every list [accs] that names every account booked on exactly once ([covers]).
+   [names_respected]: the filter cannot tell apart two accounts of the same name ([covers]
+   identifies accounts by name, as account.Registry does); it holds of the command's filters
+   whenever the accounts are syntactically valid (C20_names_respected), and, for any accounts,
+   when equally named accounts have the same type (C20_names_respected_by_type). *)
+Theorem C20_weights_match_balance : forall cfg pre d post vs,
+  asc (map d_date (pre ++ d :: post)) ->
+  day_values cfg (pre ++ d :: post) = COk vs ->
+  exists v0 v1, nth_error (fst vs) (length pre) = Some (d_date d, (v0, v1)) /\
+    forall c,
+      pcv_get v1 c == portfolio_value (ca_acc (pf_calc cfg)) (ca_com (pf_calc cfg)) (pre ++ d :: post) c (d_date d) /\
+      forall accs, covers accs (pre ++ d :: post) (d_date d) ->
+        names_respected (ca_acc (pf_calc cfg)) accs (postings_upto (pre ++ d :: post) (d_date d)) ->
+        pcv_get v1 c ==
+        portfolio_value_by_account (ca_acc (pf_calc cfg)) (ca_com (pf_calc cfg)) accs (pre ++ d :: post) c (d_date d).
+Proof. exact weights_match_balance_full. Qed.
+Print Assumptions C20_weights_match_balance.
 
-   Full statement, NOT proved (C20_weights_match_balance):
-     pcv_get V1 c == portfolio_value accf comf days c (d_date d)
-                  == portfolio_value_by_account accf comf accs days c (d_date d)   for covers accs days
-   What is missing is the algebra of the sorted association list under vals_add (get after
-   put/remove on ascending keys) and dec_q (add a b) == dec_q a + dec_q b; the accumulation
-   below is that sum written as the fold the code performs. *)
-Theorem C20_weights_match_balance_partial : forall cfg pre d post vs,
+(* the days both commands hand to ComputeValues have strictly ascending dates *)
+Theorem C20_command_days_ascending : forall cfg ds b dates days,
+  load ds = COk b -> valued_days cfg (b_days (builder_touch b dates)) = COk days -> asc (map d_date days).
+Proof. exact command_days_asc. Qed.
+Print Assumptions C20_command_days_ascending.
+
+Theorem C20_names_respected : forall cfg accs ps,
+  Forall (fun a => account_ok a = true) accs -> Forall (fun p => account_ok (p_acc p) = true) ps ->
+  names_respected (ca_acc (pf_calc cfg)) accs ps.
+Proof. exact names_respected_ok. Qed.
+Print Assumptions C20_names_respected.
+
+Theorem C20_names_respected_by_type : forall cfg accs ps,
+  (forall p a, In p ps -> In a accs -> acc_eqb (p_acc p) a = true -> is_AL a = is_AL (p_acc p)) ->
+  names_respected (ca_acc (pf_calc cfg)) accs ps.
+Proof. exact names_respected_filter. Qed.
+Print Assumptions C20_names_respected_by_type.
+
+(* the same record as the fold the code performs: V1 is the map of the decimals accumulated with
+   Amounts.Add (entries that become zero are deleted) over the bookings up to and including d *)
+Theorem C20_weights_value_record : forall cfg pre d post vs,
   day_values cfg (pre ++ d :: post) = COk vs ->
   exists v0, nth_error (fst vs) (length pre) =
              Some (d_date d, (v0, vals_pcv (fold_left (values_step (pf_calc cfg)) (flat_map day_postings (pre ++ [d])) []))).
 Proof. exact weights_value_record. Qed.
-Print Assumptions C20_weights_match_balance_partial.
+Print Assumptions C20_weights_value_record.
 
 (* V0 of every day is V1 of the day processed before it (the first V0 is empty) *)
 Theorem C20_values_chain : forall c days, records_chain [] (cv_out (cv_run c cv_init days)).
@@ -219,20 +254,84 @@ Print Assumptions C20_period_reported.
 
 (* ---------------------------------------------------------------- returns: the two laws *)
 
-(* If on every processed day of the period the change in value is accounted for by what
-   flowed in and out (V1 = V0 + inflow + outflow), the reported return is 0 -- or undefined,
-   when on some day V0 + inflow = 0.
-   Full statement, NOT proved (C20_external_flows_zero): for returns_fixed, a period in which
-   every transaction of the valued days is untargeted (t_targets = None: no @performance, and
-   no value adjustment, i.e. prices unchanged) satisfies the hypothesis.  That needs the sums
-   of ComputeFlows' maps (split_flows, pcv_add on ascending keys) and the cancellation of
-   bookings between two portfolio accounts (PairProofs.paired).  For the pinned ComputeFlows,
-   which ignores the commodity filter, the full statement is false: C20_external_flows_zero_refuted. *)
-Theorem C20_external_flows_zero_partial : forall part ends l p,
+(* A period in which nothing but deposits and withdrawals touches the portfolio reports 0.
+   For every journal and configuration on which the repaired `portfolio returns` runs: take the
+   intermediate results of returnsRunner.execute (the partition, the valued days, the records
+   of ComputeValues and ComputeFlows; all determined by cfg and ds) and any stretch l ++ [p] of
+   consecutive Performance records.  If every transaction of the valued days of that stretch is
+   untargeted (t_targets = None: no @performance annotation, and no value adjustment booked by
+   Valuate, i.e. prices unchanged) then on every day of the stretch the change in value is what
+   flowed in and out, V1 = V0 + inflow + outflow ([flows_explain]), and the return reported for
+   the stretch is 0 -- or undefined, when on some day V0 + inflow = 0.  (C20_period_reported:
+   [reported part ends l p] is what the command prints for the period end p when l are the
+   processed days of the window since the previous period end.)
+   For the pinned ComputeFlows, which ignores the commodity filter, this is false:
+   C20_external_flows_zero_refuted. *)
+Theorem C20_external_flows_zero : forall cfg ds out,
+  returns_fixed cfg ds = COk out ->
+  exists b part days vs fs,
+    load ds = COk b /\ pf_partition cfg b = COk part /\
+    valued_days cfg (b_days (builder_touch b (end_dates part))) = COk days /\
+    day_values cfg days = COk vs /\ day_flows repaired cfg (snd vs) = COk fs /\
+    out = perf_loop part (end_dates part) (Some 1) (join_perf (fst vs) fs) /\
+    map pf_date (join_perf (fst vs) fs) = map d_date days /\
+    forall l p, (exists pre rest, join_perf (fst vs) fs = pre ++ l ++ p :: rest) ->
+      (forall x, In x days -> In (d_date x) (map pf_date (l ++ [p])) -> untargeted x) ->
+      Forall flows_explain (l ++ [p]) /\ is_or_undef (reported part (end_dates part) l p) 0.
+Proof. exact external_flows_zero_full. Qed.
+Print Assumptions C20_external_flows_zero.
+
+(* the same about the output: when the records before the stretch end with a processed period end (or
+   lie before the window, [boundary]), the days of l are in the window and no period ends, and p is a
+   period end, the command prints for p a return that is 0 or undefined *)
+Theorem C20_external_flows_zero_line : forall cfg ds out,
+  returns_fixed cfg ds = COk out ->
+  exists part days perfs,
+    map pf_date perfs = map d_date days /\ out = perf_loop part (end_dates part) (Some 1) perfs /\
+    forall pre l p rest, perfs = pre ++ l ++ p :: rest ->
+      boundary part (end_dates part) pre ->
+      Forall (fun x => partition_contains part (pf_date x) = true /\ mem (end_dates part) (pf_date x) = false) l ->
+      partition_contains part (pf_date p) = true -> mem (end_dates part) (pf_date p) = true ->
+      (forall x, In x days -> In (d_date x) (map pf_date (l ++ [p])) -> untargeted x) ->
+      exists r, In (pf_date p, r) out /\ is_or_undef r 0.
+Proof. exact external_flows_zero_line. Qed.
+Print Assumptions C20_external_flows_zero_line.
+
+(* the same from the days of the journal as the builder makes them from the directives (before
+   ComputePrices, Check and Valuate): a day that declares no price is valued at the prices of the day
+   before, so Valuate books no value adjustment on it, and its transactions keep their targets
+   (C20_quiet_days_valued).  Hence: if every day of the stretch is [quiet] in the journal -- no price
+   directive, no transaction with a @performance annotation -- the printed return is 0 or undefined. *)
+Theorem C20_external_flows_zero_source : forall cfg ds out,
+  returns_fixed cfg ds = COk out ->
+  exists b part perfs,
+    load ds = COk b /\ pf_partition cfg b = COk part /\
+    map pf_date perfs = map d_date (b_days (builder_touch b (end_dates part))) /\
+    out = perf_loop part (end_dates part) (Some 1) perfs /\
+    forall pre l p rest, perfs = pre ++ l ++ p :: rest ->
+      boundary part (end_dates part) pre ->
+      Forall (fun x => partition_contains part (pf_date x) = true /\ mem (end_dates part) (pf_date x) = false) l ->
+      partition_contains part (pf_date p) = true -> mem (end_dates part) (pf_date p) = true ->
+      (forall x, In x (b_days (builder_touch b (end_dates part))) -> In (d_date x) (map pf_date (l ++ [p])) -> quiet x) ->
+      exists r, In (pf_date p, r) out /\ is_or_undef r 0.
+Proof. exact external_flows_zero_source. Qed.
+Print Assumptions C20_external_flows_zero_source.
+
+Theorem C20_quiet_days_valued : forall cfg days days',
+  valued_days cfg days = COk days' ->
+  Forall2 (fun d d' => d_date d' = d_date d /\
+                       (d_prices d = [] -> map t_targets (d_txns d') = map t_targets (d_txns d)) /\
+                       (quiet d -> untargeted d')) days days'.
+Proof. exact quiet_days_valued. Qed.
+Print Assumptions C20_quiet_days_valued.
+
+(* the law of one period by itself: if on every processed day of the period the change in value
+   is accounted for by what flowed in and out, the reported return is 0 or undefined *)
+Theorem C20_flows_explain_zero : forall part ends l p,
   Forall (fun x => p_v1 x == p_v0 x + p_inflow x + p_outflow x) (l ++ [p]) ->
   is_or_undef (reported part ends l p) 0.
 Proof. exact external_flows_zero. Qed.
-Print Assumptions C20_external_flows_zero_partial.
+Print Assumptions C20_flows_explain_zero.
 
 Theorem C20_external_flows_zero_refuted :
   exists cfg ds s e r,
@@ -315,4 +414,51 @@ Proof.
   split; [exact H1|]. split; [exact H2|]. split; [exact H3|]. split; [exact H4|]. split; [exact H5|]. split; [exact H6|].
   split; [|exact w4_law_fails].
   intros Hpf. specialize (Hpf _ _ H7 H8). vm_compute in Hpf. discriminate Hpf.
+Qed.
+
+(* W5 (PortfolioFullWitness): the journal of W2 without filters, `returns --months --to 2023-02-28 -v CHF`.
+   February is a deposit-only period with unchanged prices: the hypotheses of C20_external_flows_zero
+   hold of the records of 02-10 and 02-28 ([w5_l], [w5_p]; [w5_days] etc. are the intermediate results
+   the theorem names), the deposit of 500 CHF is the inflow of the 10th, and the period reports 0. *)
+Example C20_w5_deposit_period :
+  (exists b, load w2_journal = COk b /\ pf_partition w5_cfg b = COk w5_part /\
+     valued_days w5_cfg (b_days (builder_touch b (end_dates w5_part))) = COk w5_days /\
+     day_values w5_cfg w5_days = COk w5_vs /\ day_flows repaired w5_cfg (snd w5_vs) = COk w5_fs) /\
+  w5_perfs = join_perf (fst w5_vs) w5_fs /\ (exists pre rest, w5_perfs = pre ++ w5_l ++ w5_p :: rest) /\
+  map pf_date (w5_l ++ [w5_p]) = [feb 10; feb 28] /\
+  (forall x, In x w5_days -> In (d_date x) (map pf_date (w5_l ++ [w5_p])) -> untargeted x) /\
+  (exists b, load w2_journal = COk b /\ pf_partition w5_cfg b = COk w5_part /\
+             w5_src_days = b_days (builder_touch b (end_dates w5_part))) /\
+  (forall x, In x w5_src_days -> In (d_date x) (map pf_date (w5_l ++ [w5_p])) -> quiet x) /\
+  boundary w5_part (end_dates w5_part) (firstn 3 w5_perfs) /\
+  Forall (fun x => partition_contains w5_part (pf_date x) = true /\ mem (end_dates w5_part) (pf_date x) = false) w5_l /\
+  partition_contains w5_part (pf_date w5_p) = true /\ mem (end_dates w5_part) (pf_date w5_p) = true /\
+  match w5_l with
+  | [q] => p_v0 q == 1500 # 1 /\ p_inflow q == 500 # 1 /\ p_outflow q == 0 /\ p_v1 q == 2000 # 1
+  | _ => False
+  end /\
+  reported w5_part (end_dates w5_part) w5_l w5_p = Some 0 /\
+  second_return (returns_fixed w5_cfg w2_journal) = Some 0.
+Proof.
+  destruct w5_split as [Hs Hd].
+  split; [exact w5_runs|]. split; [reflexivity|]. split; [exists (firstn 3 w5_perfs), []; exact Hs|]. split; [exact Hd|].
+  split; [rewrite Hd; exact w5_february_untargeted|]. split; [exact w5_src|]. split; [rewrite Hd; exact w5_february_quiet|].
+  split; [exact w5_boundary|].
+  destruct w5_stretch as [Hl [Hc Hm]]. split; [exact Hl|]. split; [exact Hc|]. split; [exact Hm|]. split; [exact w5_deposit|]. split; [exact w5_reported|exact w5_returns].
+Qed.
+
+(* W5, `weights`: the hypotheses of C20_weights_match_balance hold of the valued days split at 2023-02-10
+   with the accounts [Assets:Bank; Assets:Broker; Equity:Opening]; the values are 1500 CHF and AAPL worth 500 CHF *)
+Example C20_w5_weights_values :
+  w5_days = w5_pre ++ w5_d :: w5_post /\ d_date w5_d = feb 10 /\
+  asc (map d_date (w5_pre ++ w5_d :: w5_post)) /\
+  (exists vs, day_values w5_cfg (w5_pre ++ w5_d :: w5_post) = COk vs) /\
+  covers w5_accs (w5_pre ++ w5_d :: w5_post) (d_date w5_d) /\
+  names_respected (ca_acc (pf_calc w5_cfg)) w5_accs (postings_upto (w5_pre ++ w5_d :: w5_post) (d_date w5_d)) /\
+  portfolio_value (ca_acc (pf_calc w5_cfg)) (ca_com (pf_calc w5_cfg)) (w5_pre ++ w5_d :: w5_post) CHF (d_date w5_d) == 1500 # 1 /\
+  portfolio_value_by_account (ca_acc (pf_calc w5_cfg)) (ca_com (pf_calc w5_cfg)) w5_accs (w5_pre ++ w5_d :: w5_post) AAPL (d_date w5_d) == 500 # 1.
+Proof.
+  destruct w5_days_split as [H1 [H2 _]]. destruct w5_values as [H3 H4]. destruct w5_runs as [b [_ [_ [_ [H5 _]]]]].
+  split; [exact H1|]. split; [exact H2|]. split; [exact w5_asc|]. split; [exists w5_vs; rewrite <- H1; exact H5|].
+  split; [exact w5_covers|]. split; [exact w5_names_respected|]. split; [exact H3|exact H4].
 Qed.
